@@ -26,6 +26,8 @@ type propDef struct {
 
 var props = map[string]*propDef{}
 
+var dumpAll bool
+
 func register(p *propDef) { props[p.ID] = p }
 
 func main() {
@@ -36,6 +38,7 @@ func main() {
 	explain := flag.String("explain", "", "print a violations file")
 	noSelf := flag.Bool("noselftest", false, "thorough tier without the overlay self-validation")
 	list := flag.Bool("list", false, "list properties")
+	flag.BoolVar(&dumpAll, "dump", false, "print every obligation")
 	flag.Parse()
 
 	if *verif == "" {
@@ -194,6 +197,11 @@ func runProp(p *propDef, tier, repo, verif string, seed int, noSelf bool) int {
 		fmt.Printf("  rule %-28s %d instances\n", r, perRule[r])
 	}
 
+	if dumpAll {
+		for _, o := range all {
+			fmt.Printf("  [%s] %s %s %s: %s\n", o.Verdict, o.Rule, o.Key, o.Pos, o.Reason)
+		}
+	}
 	seenKnown := map[string]bool{}
 	for _, o := range knownHit {
 		k := o.Rule + "|" + o.Key
